@@ -58,6 +58,9 @@ type Program struct {
 	globalsWritten map[*ssa.Global]bool
 	implCache map[string][]*ssa.Function
 	inits     map[string]*ssa.Function // package path -> synthetic package initialiser
+	via            map[*ssa.Function]*ssa.Function
+	regionsCache   *regions
+	addrTakenCache []*ssa.Function
 }
 
 func LoadProgram(repo string, specDirs []string) (*Program, error) {
